@@ -28,6 +28,7 @@ from taskiq import Context, TaskiqDepends  # noqa: E402
 from taskiq.abc.broker import AsyncBroker  # noqa: E402
 from taskiq.abc.middleware import TaskiqMiddleware  # noqa: E402
 from taskiq.abc.result_backend import AsyncResultBackend  # noqa: E402
+from taskiq.acks import AckableMessage  # noqa: E402
 from taskiq.exceptions import NoResultError, SendTaskError  # noqa: E402
 from taskiq.middlewares.retry_middleware import SimpleRetryMiddleware  # noqa: E402
 from taskiq.receiver import Receiver  # noqa: E402
@@ -46,6 +47,7 @@ VALUES: Dict[int, Any] = {
     27: ("True", "str", "boollike"), 28: ("false", "str", "boollike"),
     40: (1e308, "float", "finite"), 41: (5e-324, "float", "finite"), 42: (b"caf\xc3\xa9", "bytes", "utf8"),
     43: ("9" * 400, "str", "intlike"), 44: (int("9" * 400), "int", "big"), 45: ("\ud800", "str", "surrogate"),
+    51: ("a\ud83db", "str", "surrogate"),
     46: (1.0, "float", "finite"), 47: (0.0, "float", "finite"), 48: (30, "int", "small"), 49: ("30", "str", "intlike"), 50: (30.5, "float", "finite"),
 }
 for _i in range(8):            # ints 0..7 -> vids 20..27?  keep 20..26 for ints 0..6
@@ -298,7 +300,9 @@ def run(scn: Dict[str, Any]) -> List[Dict[str, Any]]:
             b1.local_task_registry["t"] = task
         else:
             task = b1.register_task(t, task_name="t", **decl)
-        receiver = Receiver(b1, executor=InlineExecutor(), run_startup=False)
+        # label typing, retries and hooks must not depend on argument parsing or on exception propagation into dependencies
+        receiver = Receiver(b1, executor=InlineExecutor(), run_startup=False, validate_params=not cfg.get("noparse", False),
+                            propagate_exceptions=not cfg.get("noprop", False))
         kickers: Dict[int, Any] = {}
 
         def snap() -> None:
@@ -371,8 +375,24 @@ def run(scn: Dict[str, Any]) -> List[Dict[str, Any]]:
                     env.rec("noop")
                     snap()
                     continue
-                loop.run_coro(receiver.callback(msg.message))
-                env.rec("ran", j=j)
+                # the broker hands the message over with an acknowledge callable and delivers it again (at most twice more)
+                # when a processing that ended normally did not acknowledge it
+                acked: List[int] = []
+                am = AckableMessage(data=msg.message, ack=lambda: acked.append(1))
+                ended = "ok"
+                if mode == "failk":
+                    env.mode = "fail"
+                for _ in range(3):
+                    env.kick_fail = mode == "failk"        # the broker refuses the re-send of this attempt
+                    try:
+                        loop.run_coro(receiver.callback(am))
+                    except Exception:  # noqa: BLE001
+                        ended = "raised"
+                        break
+                    if acked:
+                        break
+                env.kick_fail = False
+                env.rec("ran", j=j, s=ended)
                 env.cur_j = 0
             else:
                 raise ValueError(op)
